@@ -198,7 +198,7 @@ def check_alignment(mt, res, trace, unique):
 
 def case_C03(seed):
     rnd = _rnd(seed, 'C03')
-    case = U.gen_case(rnd)
+    case = U.gen_case(rnd, laps=rnd.random() < 0.1)
     U.quiet()
     unique = rnd.random() < 0.5
     mp = U.make_map(case['graph'])
@@ -255,23 +255,36 @@ def walk_violations(view, mt, linked=None):
 
 def case_C04(seed):
     rnd = _rnd(seed, 'C04')
-    case = U.gen_case(rnd)
+    case = U.gen_case(rnd, laps=rnd.random() < 0.15)
     U.quiet()
     mp = U.make_map(case['graph'])
     mt = U.make_matcher(mp, case['cfg'])
     view = O.View(graph=case['graph'])
     ops = gen_history(rnd, case, allow_cwd=False)
+    unique = rnd.random() < 0.5
     viol, done = [], []
     nt = False
     for op in ops:
+        tr = case['trace']
         try:
-            res = apply_op(mt, case, op)
+            if op[0] == 'match':
+                res = mt.match(tr[:op[1]], unique=unique)
+            elif op[0] == 'extend':
+                res = mt.match(tr[:op[1]], unique=unique, expand=True)
+            else:
+                res = mt.increase_max_lattice_width(op[1], unique=unique)
         except Exception:
             break
         done.append(op)
         if res is None or res == 'skipped':
             continue
         bad = walk_violations(view, mt)
+        # the returned state list (collapsed when uniqueness was requested) is a walk as well
+        st_ = list(res[0] or [])
+        for j in range(1, len(st_)):
+            if not O.is_move(view, st_[j - 1], st_[j]):
+                bad.append(f"returned list (unique={unique}) step #{j}: the map does not offer the move {st_[j-1]} -> {st_[j]}")
+                break
         if mt.lattice_best and len(set(m.shortkey for m in mt.lattice_best)) >= 2:
             nt = True
         if bad:
@@ -286,16 +299,29 @@ def case_C05(seed):
     rnd = _rnd(seed, 'C05')
     case = U.gen_case(rnd)
     U.quiet()
-    mp, mt, res = run_match(case)
+    mp = U.make_map(case['graph'])
+    mt = U.make_matcher(mp, case['cfg'])
+    ops = gen_history(rnd, case, allow_cwd=True) if rnd.random() < 0.5 else [('match', len(case['trace']))]
+    if any(o[0] == 'cwd' for o in ops):
+        ops.append(('extend_same',))
+    for op in ops:
+        try:
+            if op[0] == 'extend_same':
+                mt.match(mt.path, expand=True)
+            else:
+                apply_op(mt, case, op)
+        except Exception:
+            break
     model = O.Model(case['cfg'])
     view = O.View(graph=case['graph'])
     viol = []
     lb = mt.lattice_best or []
+    jumped = any(o[0] == 'cwd' for o in ops)
     cut = any(m.stop for col in mt.lattice.values() for lay in col.o for m in lay.values()) if mt.lattice else False
     for j, m in enumerate(lb):
         bad = []
         lim = model.max_dist_init if j == 0 else model.max_dist
-        if m.dist_obs > lim * (1 + 1e-12):
+        if m.dist_obs > lim * (1 + 1e-12) and not jumped:
             bad.append(f"dist_obs {m.dist_obs} > {'max_dist_init' if j == 0 else 'max_dist'} {lim}")
         if m.logprob / m.length < model.min_lp - 1e-12:
             bad.append(f"normalised log-probability {m.logprob / m.length} < log(min_prob_norm) {model.min_lp}")
